@@ -165,6 +165,106 @@ def setters(facts):
     return out
 
 
+CACHE_READS = ('core::cell::Cell::get', 'core::cell::Cell::replace', 'core::cell::Cell::take')
+CACHE_WRITES = ('core::cell::Cell::set', 'core::cell::Cell::replace', 'core::cell::Cell::take', 'core::cell::Cell::swap')
+
+
+def status_latch_problems(facts, eff, W):
+    """shape conditions G1, G2, G4 of the status-byte latch in its writer W (see module docstring)"""
+    deps = Deps(W)
+    probs = []
+    guards = [g for g in latch_guards(W) if g[0] == 'status']
+    kind, edges, sw = guards[0]
+    src = switch_source(W, sw)
+    eq_args = [op_place(a) for a in src['term']['args']]
+    # locals compared
+    cmp_locals = []
+    for a in eq_args:
+        if a is None:
+            continue
+        s = None
+        # &x
+        for bi in W.reachable():
+            for st in W.blocks[bi]['stmts']:
+                if st['k'] == 'assign' and st['lhs']['l'] == a['l'] and st['rv']['k'] == 'ref':
+                    s = st['rv']['p']['l']
+        cmp_locals.append(s)
+    # which is the cached one (from Cell::get on the status cell), which the computed one
+    cached = computed = None
+    for l in cmp_locals:
+        if l is None:
+            continue
+        toks = deps.of_local(l)
+        if ('field', STATUS_CELL) in toks and any(('call', c) in toks for c in CACHE_READS):
+            cached = l
+        else:
+            computed = l
+    if cached is None or computed is None:
+        probs.append('the equality guard does not compare a computed value with Cell::get(%s)' % STATUS_CELL)
+    else:
+        ctoks = deps.of_local(computed)
+        # G2: computed = status_flags(bpb) with `dirty |= arg`
+        if not any(t[0] == 'call' and t[1].endswith('::status_flags') for t in ctoks):
+            probs.append('computed flags do not derive from bpb.status_flags()')
+        if ('field', 'bpb') not in ctoks:
+            probs.append('computed flags do not derive from the mount-time BPB')
+        # all assignments into the computed local
+        param_locals = set(range(1, W.argc + 1))
+        for bi in W.reachable():
+            for st in W.blocks[bi]['stmts']:
+                if st['k'] != 'assign' or st['lhs']['l'] != computed:
+                    continue
+                rv = st['rv']
+                if not st['lhs']['p']:
+                    probs.append('computed flags are overwritten at %s' % W.loc(st['span']))
+                    continue
+                if rv['k'] == 'binop' and rv['op'] == 'BitOr':
+                    a = op_place(rv['a'])
+                    if a is None or place_key(a) != place_key(st['lhs']):
+                        probs.append('flag update at %s is not of the form `f |= arg`' % W.loc(st['span']))
+                else:
+                    probs.append('mount-time flag bits can be cleared or replaced at %s (not `|=`)' %
+                                 W.loc(st['span']))
+        # G1: the device write depends on the computed flags and is dominated by the `not equal` edge
+        wrote = False
+        for b2, tt in W.calls():
+            if eff.fn_reaches_dev(W.name, b2, 'W'):
+                wrote = True
+                if not edge_dominates(W, edges, b2):
+                    probs.append('status write at %s is not dominated by the `flags != cached` edge' %
+                                 W.loc(tt['span']))
+                atoks = set()
+                for a in tt['args']:
+                    atoks |= deps.of_operand(a)
+                if ('local', computed) not in atoks:
+                    probs.append('the byte written at %s does not depend on the compared flags' % W.loc(tt['span']))
+        if not wrote:
+            probs.append('no device write found in the status writer')
+        # G4: Cell::set on the status cell only here, after the write's Ok edge, with the computed value
+        for fn in facts.fns.values():
+            if fn.crate != 'fatfs':
+                continue
+            for b2, tt in fn.calls():
+                if tt.get('callee') in CACHE_WRITES:
+                    d2 = Deps(fn) if fn is not W else deps
+                    at = d2.of_operand(tt['args'][0])
+                    if ('field', STATUS_CELL) not in at:
+                        continue
+                    if fn is not W:
+                        probs.append('cached status flags are also set in %s' % fn.name)
+                        continue
+                    vt = d2.of_operand(tt['args'][1]) if len(tt['args']) > 1 else set()
+                    if ('local', computed) not in vt:
+                        probs.append('cached status flags are set to a value other than the one written')
+                    from analyses import Must
+                    m = Must(facts, lambda f, b, t, names: bool(eff.fn_reaches_dev(f.name, b, 'W')))
+                    cut = m.crossing_edges(W, set())
+                    if b2 in W.reach_from([0], cut_edges=cut):
+                        probs.append('cached status flags are updated at %s without a successful status write' %
+                                     W.loc(tt['span']))
+    return probs
+
+
 def run(ctx, rep):
     facts, eff = ctx.facts, ctx.effects
     roots = ro_roots(facts)
@@ -309,97 +409,7 @@ def run(ctx, rep):
     # ---- O3 the status latch
     status_writers = [facts.fns[f] for (f, k) in frontiers if k == 'status']
     for W in status_writers:
-        deps = Deps(W)
-        probs = []
-        guards = [g for g in latch_guards(W) if g[0] == 'status']
-        kind, edges, sw = guards[0]
-        src = switch_source(W, sw)
-        eq_args = [op_place(a) for a in src['term']['args']]
-        # locals compared
-        cmp_locals = []
-        for a in eq_args:
-            if a is None:
-                continue
-            s = None
-            # &x
-            for bi in W.reachable():
-                for st in W.blocks[bi]['stmts']:
-                    if st['k'] == 'assign' and st['lhs']['l'] == a['l'] and st['rv']['k'] == 'ref':
-                        s = st['rv']['p']['l']
-            cmp_locals.append(s)
-        # which is the cached one (from Cell::get on the status cell), which the computed one
-        cached = computed = None
-        for l in cmp_locals:
-            if l is None:
-                continue
-            toks = deps.of_local(l)
-            if ('field', STATUS_CELL) in toks and ('call', 'core::cell::Cell::get') in toks:
-                cached = l
-            else:
-                computed = l
-        if cached is None or computed is None:
-            probs.append('the equality guard does not compare a computed value with Cell::get(%s)' % STATUS_CELL)
-        else:
-            ctoks = deps.of_local(computed)
-            # G2: computed = status_flags(bpb) with `dirty |= arg`
-            if not any(t[0] == 'call' and t[1].endswith('::status_flags') for t in ctoks):
-                probs.append('computed flags do not derive from bpb.status_flags()')
-            if ('field', 'bpb') not in ctoks:
-                probs.append('computed flags do not derive from the mount-time BPB')
-            # all assignments into the computed local
-            param_locals = set(range(1, W.argc + 1))
-            for bi in W.reachable():
-                for st in W.blocks[bi]['stmts']:
-                    if st['k'] != 'assign' or st['lhs']['l'] != computed:
-                        continue
-                    rv = st['rv']
-                    if not st['lhs']['p']:
-                        probs.append('computed flags are overwritten at %s' % W.loc(st['span']))
-                        continue
-                    if rv['k'] == 'binop' and rv['op'] == 'BitOr':
-                        a = op_place(rv['a'])
-                        if a is None or place_key(a) != place_key(st['lhs']):
-                            probs.append('flag update at %s is not of the form `f |= arg`' % W.loc(st['span']))
-                    else:
-                        probs.append('mount-time flag bits can be cleared or replaced at %s (not `|=`)' %
-                                     W.loc(st['span']))
-            # G1: the device write depends on the computed flags and is dominated by the `not equal` edge
-            wrote = False
-            for b2, tt in W.calls():
-                if eff.fn_reaches_dev(W.name, b2, 'W'):
-                    wrote = True
-                    if not edge_dominates(W, edges, b2):
-                        probs.append('status write at %s is not dominated by the `flags != cached` edge' %
-                                     W.loc(tt['span']))
-                    atoks = set()
-                    for a in tt['args']:
-                        atoks |= deps.of_operand(a)
-                    if ('local', computed) not in atoks:
-                        probs.append('the byte written at %s does not depend on the compared flags' % W.loc(tt['span']))
-            if not wrote:
-                probs.append('no device write found in the status writer')
-            # G4: Cell::set on the status cell only here, after the write's Ok edge, with the computed value
-            for fn in facts.fns.values():
-                if fn.crate != 'fatfs':
-                    continue
-                for b2, tt in fn.calls():
-                    if tt.get('callee') == 'core::cell::Cell::set':
-                        d2 = Deps(fn) if fn is not W else deps
-                        at = d2.of_operand(tt['args'][0])
-                        if ('field', STATUS_CELL) not in at:
-                            continue
-                        if fn is not W:
-                            probs.append('cached status flags are also set in %s' % fn.name)
-                            continue
-                        vt = d2.of_operand(tt['args'][1])
-                        if ('local', computed) not in vt:
-                            probs.append('cached status flags are set to a value other than the one written')
-                        from analyses import Must
-                        m = Must(facts, lambda f, b, t, names: bool(eff.fn_reaches_dev(f.name, b, 'W')))
-                        cut = m.crossing_edges(W, set())
-                        if b2 in W.reach_from([0], cut_edges=cut):
-                            probs.append('cached status flags are updated at %s without a successful status write' %
-                                         W.loc(tt['span']))
+        probs = status_latch_problems(facts, eff, W)
         rep.oblige('O3.writer', W.name, ok=not probs, nontrivial=True,
                    sample={'fn': W.name, 'checks': 'G1 write dominated by flags!=cached edge and depends on flags; G2 '
                            'flags = bpb.status_flags() with only `|= arg`; G4 cache updated only after a successful '
